@@ -97,7 +97,7 @@ func (s *SourceSplitter) Start(ckpt *snapshotpb.SourceCheckpoint) error {
 	if err != nil {
 		return fmt.Errorf("kinesis.SourceSplitter failed to discover shards: %w", err)
 	}
-	pendingShards = append(pendingShards, s.splitTracker.AvailableSplits()...)
+	pendingShards = s.splitTracker.AvailableSplits()
 
 	// Do the initial split assignment
 	s.assignShards(ctx, pendingShards)
